@@ -162,6 +162,64 @@ def enumeration(ex, it, st, node):
     S = cx.sorts
     if isinstance(it, SV) and it.ty.kind == "seq":
         return "(seq.len %s)" % it.t, (lambda i: SV("(seq.nth %s %s)" % (it.t, i), it.ty.args[0])), []
+    if isinstance(it, SV) and it.ty.kind == "qmap":
+        it = PyV("mapkeys", it)
+    if isinstance(it, SV) and it.ty.kind == "oset":
+        u = next(cx.counter)
+        at, idx = "okat!%d" % u, "okidx!%d" % u
+        cx.funs.append("(declare-fun %s (Int) RKey)" % at)
+        cx.funs.append("(declare-fun %s (RKey) Int)" % idx)
+        n = "(os_n %s)" % it.t
+        ax = [
+            "(forall ((i Int)) (=> (and (<= 0 i) (< i %s)) (and (select (os_has %s) (%s i)) (= (%s (%s i)) i))))"
+            % (n, it.t, at, idx, at),
+            "(forall ((c RKey)) (=> (select (os_has %s) c) (and (<= 0 (%s c)) (< (%s c) %s) (= (%s (%s c)) c))))"
+            % (it.t, idx, idx, n, at, idx),
+        ]
+        return n, (lambda i: SV("(select (os_rep %s) (%s %s))" % (it.t, at, i), T.Ref("ProvRecord"))), ax
+    if isinstance(it, SV) and it.ty.kind == "vset":
+        u = next(cx.counter)
+        at, idx = "vsat!%d" % u, "vsidx!%d" % u
+        cx.funs.append("(declare-fun %s (Int) Val)" % at)
+        cx.funs.append("(declare-fun %s (Val) Int)" % idx)
+        n = "(vs_n %s)" % it.t
+        ax = [
+            "(forall ((i Int)) (=> (and (<= 0 i) (< i %s)) (and (select (vs_has %s) (%s i)) (= (%s (%s i)) i))))"
+            % (n, it.t, at, idx, at),
+            "(forall ((c Val)) (=> (select (vs_has %s) c) (and (<= 0 (%s c)) (< (%s c) %s) (= (%s (%s c)) c))))"
+            % (it.t, idx, idx, n, at, idx),
+        ]
+        return n, (lambda i: SV("(select (vs_rep %s) (%s %s))" % (it.t, at, i), T.VAL)), ax
+    if isinstance(it, PyV) and it.kind in ("mapvalues", "mapkeys", "mapitems") and it.data.ty.kind == "qmap":
+        m = it.data
+        vv = m.ty.args[0]
+        mk, tab, keyf = T.qm_names(vv)
+        u = next(cx.counter)
+        keyat, idx = "ukeyat!%d" % u, "uidx!%d" % u
+        cx.funs.append("(declare-fun %s (Int) String)" % keyat)
+        cx.funs.append("(declare-fun %s (String) Int)" % idx)
+        n = cx.fresh("n", T.INT)
+        has = lambda ut: ex.cell_present("(select (%s %s) %s)" % (tab, m.t, ut), vv)
+        ax = [
+            "(>= %s 0)" % n.t,
+            "(forall ((i Int)) (=> (and (<= 0 i) (< i %s)) (and %s (= (%s (%s i)) i))))"
+            % (n.t, has("(%s i)" % keyat), idx, keyat),
+            "(forall ((k String)) (=> %s (and (<= 0 (%s k)) (< (%s k) %s) (= (%s (%s k)) k))))"
+            % (has("k"), idx, idx, n.t, keyat, idx),
+        ]
+
+        def qelem(i):
+            ut = "(%s %s)" % (keyat, i)
+            key = SV("(select (%s %s) %s)" % (keyf, m.t, ut), T.QN)
+            cell = "(select (%s %s) %s)" % (tab, m.t, ut)
+            val = SV(cell if T.total_map_value(vv) else S.the(vv, cell), vv)
+            if it.kind == "mapkeys":
+                return key
+            if it.kind == "mapvalues":
+                return val
+            return PyV("tuple", [key, val])
+
+        return n.t, qelem, ax
     if isinstance(it, PyV) and it.kind in ("mapvalues", "mapkeys", "mapitems"):
         m = it.data
         kk, vv = m.ty.args
@@ -249,8 +307,10 @@ def symbolic_for(ex, s, it, st, k, ctl):
     iterfn = PyV("iterfn", lambda args: elem(args[0].t))
     tnames = [x.id for x in ast.walk(s.target) if isinstance(x, ast.Name)]
 
+    entry_env = dict(st.env)
+
     def ienv(i):
-        return {"_i": SV(i, T.INT), "_n": SV(n, T.INT), "_elem": iterfn}
+        return {"_i": SV(i, T.INT), "_n": SV(n, T.INT), "_elem": iterfn, "$entry": entry_env}
 
     # (a) invariant holds on entry
     check_invs(ex, invs, st, "init", lid, ienv("0"))
